@@ -77,12 +77,48 @@ func RunC18(r *sim.Run) {
 		}
 	}
 	var insts []*c18Inst
+	// one run in two the instances keep a client for the upstream's leader the way the
+	// gateway's reconcile loop does (every 2 s), so a new leader hears from them within
+	// seconds of a take-over without any request of the driver
+	keepClient := t.Draw(2) == 0
 	join := func() *c18Inst {
 		g := w.AddGateway(fmt.Sprintf("gw%d", len(w.Gateways)))
 		in := &c18Inst{gw: g, id: g.CS.ClientID(), hb: map[string][]time.Duration{}}
 		byID[in.id] = in
 		insts = append(insts, in)
+		if keepClient {
+			g.KeepClientFor(up)
+		}
 		return in
+	}
+	// ground truth of removals: every delete the simulated API applied, with how long
+	// the deleting replica had been leading and what was known about the instance then
+	type earlyDelete struct {
+		node, inst      string
+		ledFor, at      time.Duration
+		lastHB          time.Duration
+		lastHBAt        string
+		silent, hadCond bool
+	}
+	var earlyDeletes []earlyDelete
+	w.Cond.OnDelete = func(node, name string) {
+		for _, rp := range w.Replicas {
+			if rp.Name != node {
+				continue
+			}
+			for _, in := range insts {
+				if condName(up, in.id) != name {
+					continue
+				}
+				e := earlyDelete{node: node, inst: in.gw.Name, ledFor: w.LeadingFor(rp, 0), at: w.Now(), lastHB: -1, silent: in.silent || !in.gw.Alive, hadCond: in.hadCond}
+				for srv, hbs := range in.hb {
+					if n := len(hbs); n > 0 && hbs[n-1] > e.lastHB {
+						e.lastHB, e.lastHBAt = hbs[n-1], srv
+					}
+				}
+				earlyDeletes = append(earlyDeletes, e)
+			}
+		}
 	}
 	for i := t.Range(2, 4); i > 0; i-- {
 		join()
@@ -150,7 +186,17 @@ func RunC18(r *sim.Run) {
 	nSteps := t.Range(25, 90)
 	for step := 0; step < nSteps && !r.Violated(); step++ {
 		r.Step = step
-		switch t.Pick([]int{8, 6, 6, 3, 2, 2}) {
+		weights := []int{8, 6, 6, 3, 2, 2, 0}
+		if storeKind == "k8s" {
+			weights[6] = 1
+		}
+		switch t.Pick(weights) {
+		case 6: // somebody else removes the API object of an instance's condition (kubectl delete, a cleanup job)
+			in := insts[t.Draw(len(insts))]
+			if w.Cond.DirectDelete(condName(up, in.id)) {
+				r.Fault("foreign_delete")
+				r.Logf("the API object of %s's condition is deleted out of band", in.gw.Name)
+			}
 		case 0:
 			in := insts[t.Draw(len(insts))]
 			if in.silent {
@@ -303,6 +349,19 @@ func RunC18(r *sim.Run) {
 	if r.Violated() {
 		return
 	}
+	// ---- a leader does not remove what it has just loaded: the record of an instance
+	// that is alive, whose heartbeats keep arriving (at whichever replica it knows as
+	// leader), may not be deleted by a replica that has led for less than the heartbeat
+	// time-out (3 s) - it cannot know yet that the instance has stopped
+	for _, e := range earlyDeletes {
+		if e.ledFor <= 0 || e.ledFor >= 2500*time.Millisecond || e.silent || e.lastHB < 0 || e.at-e.lastHB >= 2900*time.Millisecond {
+			continue
+		}
+		r.Checked("record_not_removed_right_after_take_over")
+		r.Violate("live_instance_dropped", storeKind+"/at-take-over", "replica %s deleted the condition of instance %s at %v, %v after it had begun to lead the shard (heartbeat time-out: 3 s); the instance was alive and its last heartbeat had arrived %v earlier at %s", e.node, e.inst, e.at, e.ledFor.Round(10*time.Millisecond), (e.at - e.lastHB).Round(10*time.Millisecond), e.lastHBAt)
+		return
+	}
+	r.ProbeN("condition_deletes_seen_at_the_api", len(earlyDeletes))
 	// ---- freed capacity is available: counted in-flight of reclaimed instances is gone
 	for _, rp := range w.Replicas {
 		w.SetAPICut(rp.Name, false)
